@@ -11,14 +11,15 @@ ENGINE = "E2 detgrid"
 TECHNIQUE = ("Hypothesis-generated publish histories (1-3 versions, SDMF/MDMF) followed by adversarial share plans that know the share formats: numeric header/offset fields set "
              "to boundary values, byte flips inside every named region (root hash, IV/salt, verification key, signature, share hash chain, block hash tree, blocks, encrypted "
              "private key), truncation at field boundaries, a pristine duplicate of a share number on a second server, substitution by older versions / other share numbers / another file's validly signed shares, and consistent "
-             "grafts of regions from an older version or from another key into a newer share; oracle = result is the plaintext of a published version or an error")
+             "grafts of regions from an older version or from another key into a newer share, and colluding-server forgeries (k shares with the attacker's own blocks and block hash trees "
+             "plus one share whose share hash chain lists their leaf hashes next to a hash number that does not exist in the tree); oracle = result is the plaintext of a published version or an error")
 RULE = ("each case: k<=3, N<=5, 1-5 segments, a file published 1-3 times with known contents (snapshots of all share files kept per version) and a sibling file created with "
         "another key; 1-4 damages applied to chosen shares; then reads by a fresh write-cap client and a fresh read-cap client under a drawn schedule. Oracle: each read "
         "returns exactly the contents of one of the published versions, or fails; if at least k distinct share numbers are still byte-identical to the newest version's "
         "shares the read must succeed. Non-trivial = at least one damaged share; distinct by whole case.")
 LEVEL_TEXT = "Fault-plan search by a generator that knows both mutable share formats, including internally consistent forgeries that lack only a valid signature."
 ASSUMPTIONS = ["RSA signatures and SHA-256d are not broken (forgeries reuse existing signatures or use another key)", "servers answer every request (availability under server faults is C47/C11)"]
-REQUIRED_CLASSES = ["dup", "set", "flip", "trunc", "swap-older", "swap-otherfile", "graft-older", "graft-otherfile", "read-ok", "read-failed", "sdmf", "mdmf", "k-intact", "returned-older-version"]
+REQUIRED_CLASSES = ["dup", "set", "flip", "trunc", "swap-older", "swap-otherfile", "graft-older", "graft-otherfile", "read-ok", "read-failed", "sdmf", "mdmf", "k-intact", "returned-older-version", "plant"]
 BUDGET = {"quick": 900, "thorough": 7200}
 GRAFTS = [["share_data"], ["share_data", "block_hash_tree"], ["share_data", "block_hash_tree", "share_hash_chain"], ["share_data", "block_hash_tree", "share_hash_chain", "root_hash"],
           ["signature"], ["pubkey"], ["pubkey", "signature"], ["root_hash", "seqnum"], ["seqnum"], ["IV"], ["salt0"], ["enc_privkey"],
@@ -45,12 +46,86 @@ def cases(draw):
         st.tuples(st.just("delete"), which, st.just(""), st.just(0), st.just(0)),
         st.tuples(st.just("dup"), which, st.just(""), st.integers(0, 4), st.just(0)),
     ).map(list)
-    return {"fmt": draw(st.sampled_from(["sdmf", "mdmf"])), "k": k, "n": n, "seg": seg, "versions": draw(st.lists(st.integers(0, 5 * seg), min_size=1, max_size=3)),
+    case = {"fmt": draw(st.sampled_from(["sdmf", "mdmf"])), "k": k, "n": n, "seg": seg, "versions": draw(st.lists(st.integers(0, 5 * seg), min_size=1, max_size=3)),
             "damage": draw(st.lists(dmg, min_size=1, max_size=4)), "sched": draw(st.lists(st.integers(0, 9), max_size=40))}
+    if draw(st.integers(0, 5)) == 0:
+        # colluding servers: one sacrificial share whose share hash chain lists forged leaf hashes followed by a hash number that is not in the tree,
+        # and k forged shares (own blocks, own block hash tree) that only match those forged leaves
+        case["n"] = n = max(n, k + 2)
+        case["versions"] = [max(v, 1) for v in case["versions"]]
+        case["plant"] = {"poison": draw(st.sampled_from([60000, 65535, "size", "size+1", 255, 0, 0])), "first": draw(st.integers(0, 2)), "order": draw(st.sampled_from(["poison-last", "poison-last", "poison-first"]))}
+        case["damage"] = []
+    return case
 
 
 def run_shard(spec, ctx):
     ctx.drive(cases(), spec["n"], run_case)
+
+
+def plant_attack(g, node, si, case, newest, contents, snap, classes):
+    """Forged shares that lack only a valid signature, plus one share whose hash chain tries to smuggle their leaf hashes into the share hash tree."""
+    import struct
+    k, n = case["k"], case["n"]
+    atk = pbytes(77, len(contents[-1]))
+    r = g.run(node.overwrite(mutfile.mdata(atk)))          # stands for what the attacker computes himself from the read cap: blocks, salts, block hash trees
+    if r[0] != "ok":
+        return set()
+    atk_snap = snap()
+    paths = {(s_, sh): p for (s_, sh, p) in g.all_share_paths(si)}
+    for key, p in paths.items():                            # ...but he cannot sign: every server is back at the newest genuine version
+        open(p, "wb").write(newest[key])
+    keys = sorted(newest, key=lambda x: (x[1], x[0]))
+    shnums = sorted(set(sh for (_, sh) in keys))
+    first = case["plant"]["first"] % max(1, len(shnums) - k)
+    victim, forged = shnums[first], shnums[first + 1:first + 1 + k]
+    if len(forged) < k:
+        classes.add("plant-skipped")
+        return set()
+    size = 1
+    while size < n:
+        size *= 2
+    first_leaf = size - 1
+    leaf = {}
+    hit = set()
+    tmp = os.path.join(os.path.dirname(paths[keys[0]]), "tmp.parse")
+    for key in keys:
+        if key[1] not in forged:
+            continue
+        p = paths[key]
+        G = mut_share.parse(p)["fields"]
+        open(tmp, "wb").write(atk_snap[key])
+        A = mut_share.parse(tmp)["fields"]
+        os.unlink(tmp)
+        if any(G[r_][1] - G[r_][0] != A[r_][1] - A[r_][0] for r_ in ("share_data", "block_hash_tree", "share_hash_chain")):
+            classes.add("plant-skipped")
+            return hit
+        for r_ in ("share_data", "block_hash_tree"):
+            mut_share.patch(p, G[r_][0], atk_snap[key][A[r_][0]:A[r_][1]])
+        F_ = atk_snap[key][A["block_hash_tree"][0]:A["block_hash_tree"][0] + 32]
+        leaf[key[1]] = F_
+        a, b = G["share_hash_chain"]
+        pair = struct.pack(">H32s", first_leaf + key[1], F_)
+        mut_share.patch(p, a, (pair * ((b - a) // 34 + 1))[:b - a])
+        hit.add(key)
+    poison = {"size": 2 * size - 1, "size+1": 2 * size}.get(case["plant"]["poison"], case["plant"]["poison"])
+    for key in keys:
+        if key[1] != victim:
+            continue
+        p = paths[key]
+        a, b = mut_share.parse(p)["fields"]["share_hash_chain"]
+        cap = (b - a) // 34
+        plants = [struct.pack(">H32s", first_leaf + sh, leaf[sh]) for sh in forged if sh in leaf]
+        if cap < len(plants) + 1:
+            classes.add("plant-skipped")
+            return hit
+        pz = struct.pack(">H32s", poison, b"P" * 32)
+        pairs = ([pz] + plants if case["plant"]["order"] == "poison-first" else plants + [pz])
+        pairs = pairs[:1] * (cap - len(pairs)) + pairs if case["plant"]["order"] != "poison-first" else pairs + plants[:1] * (cap - len(pairs))
+        mut_share.patch(p, a, b"".join(pairs)[:b - a])
+        hit.add(key)
+    classes.add("plant")
+    classes.add("plant-" + case["plant"]["order"])
+    return hit
 
 
 def pick(which, shares):
@@ -95,6 +170,8 @@ def run_case(case, ctx):
         newest = snaps[-1]
         older = snaps[-2] if len(snaps) > 1 else None
         damaged = set()
+        if case.get("plant"):
+            damaged |= plant_attack(g, node, si, case, newest, contents, snap, classes)
         for d in case["damage"]:
             kind = d[0]
             for (sidx, shnum, p) in pick(d[1], shares):
@@ -211,7 +288,8 @@ def run_case(case, ctx):
                     classes.add("offsets-tampered")
         if len(intact) >= k:
             classes.add("k-intact")
-        desc = "fmt=%s k=%d N=%d seg=%d versions=%r damage=%r schedule=%r" % (fmt, k, n, seg, [len(c) for c in contents], case["damage"], case["sched"][:12])
+        desc = "fmt=%s k=%d N=%d seg=%d versions=%r damage=%r%s schedule=%r" % (fmt, k, n, seg, [len(c) for c in contents], case["damage"],
+                                                                              " colluding-forgery=%r" % (case["plant"],) if case.get("plant") else "", case["sched"][:12])
         wcap, rcap = node.get_uri(), node.get_readonly_uri()
         g.sched.choices, g.sched.ci = list(case["sched"]), 0
         for who, cap in (("write-cap", wcap), ("read-cap", rcap)):
